@@ -201,6 +201,7 @@ def h_error_propagates(ctx):
     many = ctx.choice([False, True], label="many")
     kind = ctx.choice(["custom", "LoadError", "FileFormatError", "PrepareDumpError", "DumpError", "ValueError"], label="exception")
     existing = ctx.choice([True, False], label="output-exists")
+    entry = ctx.choice(["convert", "main"], label="entry-point")
 
     class Boom(Exception):
         pass
@@ -238,21 +239,34 @@ def h_error_propagates(ctx):
     M.load_one = M.load_many = load
     M.dump_one = M.dump_many = dump
     escaped = None
+    import sys
+    import numpy as np
+    old_argv, old_err = sys.argv, np.geterr()
     try:
         try:
-            M.convert(infn, outfn, many)
+            if entry == "convert":
+                M.convert(infn, outfn, many)
+            else:
+                # the command-line entry: the error must end the run with a failure (exception or non-zero SystemExit),
+                # not with a normal return
+                sys.argv = ["iodata-convert", infn, outfn] + (["--many"] if many else [])
+                M.main()
+        except SystemExit as e:
+            escaped = e if e.code not in (0, None) else None
         except Exception as e:      # noqa: BLE001
             escaped = e
         after = listing()
     finally:
+        sys.argv = old_argv
+        np.seterr(**old_err)
         for n, v in saved.items():
             setattr(M, n, v)
         shutil.rmtree(tmp, ignore_errors=True)
-    cls = f"{which},{kind},many={many},existing={existing}"
+    cls = f"{which},{kind},many={many},existing={existing},{entry}"
     if which == "none":
         ctx.oblige("no-exception-without-api-error", escaped is None, cls=cls, detail=repr(escaped))
     else:
-        ctx.oblige("api-error-escapes-convert", escaped is not None and escaped is raised[0], cls=cls, detail=repr(escaped))
+        ctx.oblige("api-error-escapes-convert", escaped is not None and (escaped is raised[0] or entry == "main"), cls=cls, detail=repr(escaped))
     ctx.oblige("no-dump-after-failed-load", (which != "load") or not ndump, cls=cls)
     ctx.oblige("exactly-one-dump-attempt", which == "load" or len(ndump) == 1, cls=cls)
     ctx.oblige("convert-has-no-file-system-effect-of-its-own", after == before, cls=cls,
@@ -267,5 +281,5 @@ def jobs(tier):
             out.append(job("C18", f"convert[infmt={int(i)},outfmt={int(o)}]", M, "h_convert", dict(infmt=i, outfmt=o)))
     out.append(job("C18", "convert[twin]", M, "h_convert", dict(twin=True), expect="cex", validate=False))
     out.append(job("C18", "main-options", M, "h_main", {}, max_validate=96))
-    out.append(job("C18", "error-propagates", M, "h_error_propagates", {}, max_validate=144))
+    out.append(job("C18", "error-propagates", M, "h_error_propagates", {}, max_validate=288))
     return out
